@@ -124,7 +124,7 @@ class Scalar(AbstractValueWithQuantityObject):
 
         """
         if value is None:
-            self._value = self._GetDefaultValue(quantity.GetCategoryInfo())
+            self._value = self._GetDefaultValueForQuantity(quantity)
         else:
             self._value = float(value)
 
